@@ -43,4 +43,10 @@ GenEntry(dp, e, vec) ==
 
 \* hook: the innermost entry comes from a failing descriptor hook (it names the described field itself, not a block)
 GenErr(dp, err, vec, hook) == [k \in 1..Len(err) |-> IF k = 1 /\ hook THEN err[k] ELSE GenEntry(dp, err[k], vec)]
+\* a failing pack: a block serialises all its fields with ONE StructPack before anything is appended, so when a member
+\* other than the first is at fault the position every enclosing entry reports is still the start of the block
+GenErrP(dp, err, vec, hook) ==
+    IF Len(err) = 0 \/ hook THEN GenErr(dp, err, vec, hook)
+    ELSE LET delta == err[1].off - GenEntry(dp, err[1], vec).off IN
+         [k \in 1..Len(err) |-> IF k = 1 THEN GenEntry(dp, err[1], vec) ELSE [err[k] EXCEPT !.off = @ - delta]]
 =============================================================================
